@@ -35,8 +35,8 @@ def jobs():
             js.append(Job("L2-match@t%d-q%d" % (tl, ql), "C20/c20.c", "c20_l2_match", UNITS, extra_src=EXTRA, defines=["TL=%d" % tl, "QL=%d" % ql],
                           unwind=max(tl, ql) + 3, tier="quick" if tl <= 4 and ql <= 3 else "thorough", group="L2-match", termination=True,
                           desc="match() on exact-size text %d / pattern %d, all modes" % (tl, ql), bounds={"text": tl, "pattern": ql}))
-    for (nres, flt, pl, an, av, tier) in [(1, 0, 2, 2, 1, "quick"), (2, 0, 1, 1, 1, "quick"), (2, 1, 1, 1, 1, "quick"), (2, 0, 2, 2, 2, "thorough"),
-                                          (2, 1, 2, 1, 2, "thorough"), (1, 1, 1, 2, 0, "thorough")]:
+    for (nres, flt, pl, an, av, tier) in [(1, 0, 2, 2, 1, "quick"), (2, 0, 1, 1, 1, "quick"), (2, 1, 1, 1, 1, "quick"), (1, 1, 1, 2, 0, "quick"), (2, 0, 2, 2, 2, "thorough"),
+                                          (2, 1, 2, 1, 2, "thorough")]:
         js.append(Job("B1-wellknown@r%d-f%d-p%d-a%d.%d" % (nres, flt, pl, an, av), "C20/c20.c", "c20_b1_wellknown", UNITS, extra_src=EXTRA,
                       defines=["NRES=%d" % nres, "FILTER=%d" % flt, "PL=%d" % pl, "NATTR=1", "AN=%d" % an, "AV=%d" % av, "OBS=0"], unwind=24, tier=tier,
                       group="B1-wellknown", timeout=1800, est_gb=4,
